@@ -94,6 +94,13 @@ func fenceMatch(
 	if !objIsSpatial(details.obj.Geo()) {
 		return nil
 	}
+	if details.old != nil && !objIsSpatial(details.old.Geo()) {
+		// the id held a string before: it had no previous position (its
+		// "center" would be 0,0), so this is a first appearance
+		d := *details
+		d.old = nil
+		details = &d
+	}
 	if details.command == "fset" {
 		nofields := sw.nofields
 		if nofields {
